@@ -315,6 +315,66 @@ func c11Exchanges(p *core.Prog, r *core.Report) {
 		r.Check(ok && n > 0, "C11-R1", fname(f), "a failed method read is reported through failed() (exchange shut down)", p.Pos(f.Pos()),
 			"every non-nil error returned is the result of reqResReader.failed", "readMethod can return an error without shutting the exchange down: the inbound exchange stays registered for ever (no watcher is running yet)")
 	}
+	// The argument streams of a call report every failure of their own through
+	// failed(), which shuts the exchange down; an outbound exchange has no
+	// watcher, so an error handed back any other way leaves it registered for
+	// ever. A returned error is the result of failed(), the sticky error an
+	// earlier failed() stored, nil, or (reader only) the peer's error frame,
+	// which completes the call through doneReading.
+	for _, m := range [][3]string{{"reqResWriter", "flushFragment", "reqResWriter.failed"}, {"reqResWriter", "argWriter", "reqResWriter.failed"},
+		{"reqResReader", "argReader", "reqResReader.failed"}, {"reqResReader", "recvNextFragment", "reqResReader.failed"}} {
+		f := mustFunc(p, r, "", m[0], m[1])
+		if f == nil {
+			continue
+		}
+		errF := p.Field("", m[0], "err")
+		var okVal func(v ssa.Value, d int) bool
+		okVal = func(v ssa.Value, d int) bool {
+			if d > 6 {
+				return false
+			}
+			if k, isK := v.(*ssa.Const); isK && k.IsNil() {
+				return true
+			}
+			if callResult(v, m[2]) != nil {
+				return true
+			}
+			if lf := core.LoadedField(v); lf != nil && lf == errF {
+				return true
+			}
+			if mi, isMI := v.(*ssa.MakeInterface); isMI {
+				if n, isN := mi.X.Type().(*types.Named); isN && n.Obj().Name() == "errorMessage" && m[0] == "reqResReader" {
+					return true
+				}
+			}
+			if ph, isPhi := v.(*ssa.Phi); isPhi {
+				for _, e := range ph.Edges {
+					if !okVal(e, d+1) {
+						return false
+					}
+				}
+				return true
+			}
+			return false
+		}
+		bad, n := "", 0
+		core.EachInstr(f, func(i ssa.Instruction) {
+			ret, isRet := i.(*ssa.Return)
+			if !isRet {
+				return
+			}
+			rv := core.ReturnValues(ret)
+			if len(rv) == 0 {
+				return
+			}
+			n++
+			if !okVal(rv[len(rv)-1], 0) {
+				bad = p.Pos(ret.Pos())
+			}
+		})
+		r.Check(bad == "" && n > 0, "C11-R1", fname(f), "a failure of the argument stream is reported through failed() (exchange shut down)", p.Pos(f.Pos()),
+			fmt.Sprintf("%d returns: nil, failed(...), the stored sticky error or the peer's error frame", n), "the return at "+bad+" hands back an error without failed(): the exchange is not shut down, and an outbound exchange has nothing else that removes it")
+	}
 	if f := mustFunc(p, r, "", "Connection", "dispatchInbound"); f != nil {
 		rm := core.CallsIn(f, "InboundCall.readMethod")
 		ok, how := len(rm) == 1, "readMethod call not found"
